@@ -21,8 +21,9 @@ let case_of (f : string list) : case * oracle =
                  sh_cfg = (match cfg with "N" -> NoCfg | "S" -> CStruct | _ -> CPtr);
                  sh_cerr = bool_of_field cerr; sh_perr = bool_of_field perr;
                  sh_def = (match def with "-" -> DefNone | "V" -> DefVal | _ -> DefNil);
-                 sh_rt = (if rt = "I" then TIface else TImpl) } in
-      let rq = (match req with "N" -> ReqNew | "F0" -> ReqFactory false | _ -> ReqFactory true) in
+                 sh_rt = (if rt = "M" then TImpl else TIface); sh_named = (rt = "J") } in
+      let rq = (match req with "N" -> ReqNew | "F0" -> ReqFactory (false, false) | "F1" -> ReqFactory (true, false)
+                             | "G0" -> ReqFactory (false, true) | _ -> ReqFactory (true, true)) in
       ({ cs_shape = sh; cs_req = rq; cs_hf = bool_of_field hf; cs_k = nat_of_int (int_of_string k) },
        oracle_of (set_of ff) (set_of cf) (set_of pf))
   | _ -> raise (Unparsable "case")
@@ -139,53 +140,73 @@ let p_obs s =
 
 (* hook cases: the fill is the real decoder (no fill events are recorded); the verdict compares
    every product with the specification-side function expected_arg *)
+let replace_all (a : string) (b : string) (s : string) : string = Str.global_replace (Str.regexp_string a) b s
+
 let predict_hook (f : string list) (obs : string) : string * string * bool =
-  match f with
-  | ["hook"; cfg; def; req; ub; k] ->
+  let go cfg def req ub k ua =
       let sh = { sh_ret = RPlugin; sh_cfg = (if cfg = "S" then CStruct else CPtr); sh_cerr = true; sh_perr = false;
-                 sh_def = (if def = "-" then DefNone else DefVal); sh_rt = TImpl } in
-      let o0 = oracle_of [] [] [] in
-      let o = { o0 with o_fill = (fun _ seen -> { va = seen.va; vb = n_of_string ub; vc = seen.vc }) } in
+                 sh_def = (if def = "-" then DefNone else DefVal); sh_rt = TImpl; sh_named = false } in
+      (* what the user code does: default V gives a = 100+n, W gives a = 5000+n (violating the
+         validate tag max=1000); the decoder overlays the keys of the section and then validates *)
+      let overlay seen = { va = (if ua = "-" then seen.va else n_of_string ua);
+                           vb = (if ub = "-" then seen.vb else n_of_string ub); vc = seen.vc } in
+      let dflt n = let i = int_of_nat n in
+        { va = n_of_int ((if def = "W" then 5000 else 100) + i); vb = n_of_int (200 + i); vc = n_of_int 0 } in
+      let invalid = (let a0 = (if ua <> "-" then int_of_string ua else if def = "W" then 5000 else if def = "V" then 100 else 0) in a0 > 1000) in
+      let o = { o_dflt = dflt; o_fill = (fun _ seen -> overlay seen); o_ffail = (fun _ -> invalid);
+                o_cfail = (fun _ -> false); o_pfail = (fun _ -> false) } in
       let kk = int_of_string k in
-      let cs = { cs_shape = sh; cs_req = (if req = "N" then ReqNew else ReqFactory true); cs_hf = true; cs_k = nat_of_int kk } in
+      let cs = { cs_shape = sh; cs_req = (if req = "N" then ReqNew else ReqFactory (true, false)); cs_hf = true; cs_k = nat_of_int kk } in
       let nofill = List.filter (function EvFill _ -> false | _ -> true) in
       let strip = List.map (fun (e, out) -> (nofill e, out)) in
       let pred = s_obs (canon_obs (match run_case cs o with
                         | ObsNew calls -> ObsNew (strip calls)
                         | ObsFactory (cev, e, calls) -> ObsFactory (nofill cev, e, strip calls)
                         | x -> x)) in
-      (* specification: every call constructs exactly once, from a config that is the value of a
-         default invocation of THIS call (zero without a default function) overlaid by the decoded
-         setting b = userB; default invocations and config identities differ between calls *)
+      (* the real decoder's error is not one of the instrumented ones *)
+      let pred = Str.global_replace (Str.regexp "err:fill[0-9]+") "err:config" pred in
       let has_def = (def <> "-") in
       let op_ok (evs, out) =
         match out with
         | OOk p ->
             let defs = List.filter_map (function EvDefault n -> Some n | _ -> None) evs in
             let ctors = List.filter_map (function EvCtor (c, a) -> Some (c, a) | _ -> None) evs in
-            let base = (match defs with [n] when has_def -> Some (o.o_dflt n) | [] when not has_def -> Some vzero | _ -> None) in
+            let base = (match defs with [n] when has_def -> Some (dflt n) | [] when not has_def -> Some vzero | _ -> None) in
             (match base, ctors with
              | Some b, [(c, a)] ->
-                 let want = { va = b.va; vb = n_of_string ub; vc = b.vc } in
+                 let want = overlay b in
                  c = p.p_ctor && a = p.p_arg && p.p_prod = None &&
                  (match a with AConf cf -> sh.sh_cfg = CPtr && cf.c_val = want | AVal v -> sh.sh_cfg = CStruct && v = want | _ -> false)
              | _ -> false)
         | _ -> false in
+      (* an invalid configuration: the error is the result and nothing is constructed *)
+      let op_err (evs, out) =
+        (match out with OErr _ -> true | _ -> false) && List.for_all (function EvCtor _ | EvProd _ -> false | _ -> true) evs in
       let distinct l = List.length (List.sort_uniq compare l) = List.length l in
       let calls_ok calls =
         List.length calls = kk && List.for_all op_ok calls &&
         distinct (List.concat_map (fun (evs, _) -> List.filter_map (function EvDefault n -> Some (int_of_nat n) | _ -> None) evs) calls) &&
         distinct (List.concat_map (fun (evs, _) -> List.filter_map (function EvCtor (_, AConf c) -> Some (int_of_nat c.c_id) | _ -> None) evs) calls) in
+      let no_ctor = List.for_all (function EvCtor _ | EvProd _ -> false | _ -> true) in
+      let why = if invalid then "an invalid configuration (default overlaid by the section fails validation) did not reach the caller as the error"
+                else "product not built from a fresh default overlaid by the decoded settings" in
       let v =
-        (match p_obs obs with
-         | ObsNew calls when req = "N" -> verdict (calls_ok calls) "product not built from a fresh default overlaid by the decoded settings"
-         | ObsFactory (cev, None, calls) when req <> "N" ->
+        (match p_obs (replace_all "err:config" "err:fill0" obs) with
+         | ObsNew calls when req = "N" ->
+             verdict (if invalid then List.length calls = kk && List.for_all op_err calls else calls_ok calls) why
+         | ObsFactory (cev, ce, calls) when req <> "N" ->
              (* creation may decode a trial config; it must not construct anything *)
-             verdict (List.for_all (function EvCtor _ | EvProd _ -> false | _ -> true) cev && calls_ok calls)
-               "product not built from a fresh default overlaid by the decoded settings"
+             verdict (no_ctor cev &&
+                      (if invalid then
+                         (* the error reaches the caller: at creation, or from every call *)
+                         (match ce with Some _ -> calls = [] | None -> List.length calls = kk && kk > 0 && List.for_all op_err calls)
+                       else ce = None && calls_ok calls)) why
          | _ -> "BAD:unexpected-form"
          | exception Unparsable what -> "BAD:outside-the-model(" ^ what ^ ")") in
-      (pred, v, true)
+      (pred, v, true) in
+  match f with
+  | ["hook"; cfg; def; req; ub; k] -> go cfg def req ub k "-"
+  | ["hook"; cfg; def; req; ub; k; ua] -> go cfg def req ub k ua
   | _ -> ("unknown-case", "BAD:unknown-case", false)
 
 (* hookn cases: a plugin whose config holds a nested plugin, decoded by the real hooks. *)
@@ -193,7 +214,7 @@ let predict_hookn (f : string list) (obs : string) : string * string * bool =
   match f with
   | ["hookn"; req; k] ->
       let kk = int_of_string k in
-      let inner_sh = { sh_ret = RPlugin; sh_cfg = CPtr; sh_cerr = true; sh_perr = false; sh_def = DefVal; sh_rt = TImpl } in
+      let inner_sh = { sh_ret = RPlugin; sh_cfg = CPtr; sh_cerr = true; sh_perr = false; sh_def = DefVal; sh_rt = TImpl; sh_named = false } in
       let o0 = oracle_of [] [] [] in
       let o = { o0 with o_fill = (fun _ seen -> { va = seen.va; vb = n_of_int 6; vc = seen.vc }) } in
       (* the inner plugin of the g-th decode of the config data: New on the inner registration *)
